@@ -8,10 +8,12 @@ state of every dispatch task, results and virtual completion times of get()/wait
 
 History text (also corpus / replay format):   S<scripts> <op>*
     scripts : <cb>:<susp>:<k|a<c>>,...   callback function cb suspends <susp> times, returns None (k) or value+c
-    op      : sub:<n>:<cb> once:<n>:<cb> unsub:<n>:<cb> unsubo:<n>:<sid> disp:<n>:<v>[!] get:<n>:<ticks|->[!]
+    op      : sub:<n>:<cb>[~] once:<n>:<cb>[~] unsub:<n>:<cb> unsubo:<n>:<sid> disp:<n>:<v>[!] get:<n>:<ticks|->[!]
               rel:<i> settle adv:<t>
     `!` marks the other API flavour (disp!: a task awaiting dispatch() instead of dispatch_nowait;
-    get!: wait_for instead of get); one tick = 0.5 s of virtual time.
+    get!: wait_for instead of get); `~`: the callback is subscribed behind a pass-everything filter (throttle /
+    debounce with threshold 0).  Callback functions with an odd id are BOUND METHODS (a new object per attribute
+    access); unsubscribe always passes the raw callback.  One tick = 0.5 s of virtual time.
 """
 import asyncio
 from asyncio import events as aio_events
@@ -23,6 +25,7 @@ from common import Result, driver_batch, load_corpus, use_repo
 import vloop
 
 use_repo()
+from pyplumio import filters  # noqa: E402
 from pyplumio.helpers.event_manager import EventManager  # noqa: E402
 
 TICK = 0.5
@@ -77,8 +80,27 @@ class Impl:
                     await fut
                 return None if ret is None else v + ret
 
-            self.fns[cb] = f
-        return self.fns[cb]
+            if cb % 2:
+                # odd ids: a bound method -- every attribute access yields a new (equal) callback object
+                class Holder:
+                    async def call(inner, v):
+                        return await f(v)
+
+                self.fns[cb] = Holder()
+            else:
+                self.fns[cb] = f
+        h = self.fns[cb]
+        return h.call if cb % 2 else h
+
+    def wrapped(self, arg):
+        """the callback as it is subscribed: `<cb>` as it is, `<cb>~` behind a filter that lets every value
+        through (throttle / debounce with a zero threshold) -- for the event manager still the same callback"""
+        if arg.endswith("~"):
+            cb = int(arg[:-1])
+            if self.next_sid % 2:
+                return filters.throttle(self.fn(cb), 0)
+            return filters.debounce(self.fn(cb), 0)
+        return self.fn(int(arg))
 
     def op(self, text):
         self.op_index += 1
@@ -86,12 +108,13 @@ class Impl:
         k = w[0]
         name = "n" + w[1] if len(w) > 1 and k not in ("rel", "adv") else None
         if k == "sub":
-            self.em.subscribe(name, self.fn(int(w[2])))
+            self.em.subscribe(name, self.wrapped(w[2]))
             self.next_sid += 1
         elif k == "once":
-            self.once[self.next_sid] = self.em.subscribe_once(name, self.fn(int(w[2])))
+            self.once[self.next_sid] = self.em.subscribe_once(name, self.wrapped(w[2]))
             self.next_sid += 1
         elif k == "unsub":
+            # always by the RAW callback (for a bound method: a fresh, equal but not identical, object)
             self.em.unsubscribe(name, self.fn(int(w[2])))
         elif k == "unsubo":
             sid = int(w[2])
@@ -217,7 +240,7 @@ def parse_scripts(text):
 
 
 def lean_ops(ops):
-    return [re.sub(r"!$", "", o) for o in ops]
+    return [re.sub(r"[!~]$", "", o) for o in ops]
 
 
 def strip_model(ans):
@@ -256,11 +279,11 @@ def run_random(loop, rng, n_ops, names=3):
         r = rng.random()
         n = rng.randrange(names) if rng.random() < 0.3 else 0
         if r < 0.14:
-            do(f"sub:{n}:{rng.randrange(6)}")
+            do(f"sub:{n}:{rng.randrange(6)}{'~' if rng.random() < 0.35 else ''}")
         elif r < 0.26 and once_next < 112:
             cb = once_next if rng.random() < 0.8 else rng.randrange(6)
             once_next += cb == once_next
-            do(f"once:{n}:{cb}")
+            do(f"once:{n}:{cb}{'~' if rng.random() < 0.2 else ''}")
         elif r < 0.33:
             do(f"unsub:{n}:{rng.randrange(6)}")
         elif r < 0.39 and im.once:
@@ -331,6 +354,7 @@ def replay_history(loop, scripts, ops):
 # ---------------------------------------------------------------- property-level checks on the implementation
 def spec_checks(scripts, ops, im):
     """predicates of the statement that can be read off the implementation's observation alone"""
+    ops = [o.rstrip("~") for o in ops]
     bad = []
     n_once, n_plain = {}, {}
     for o in ops:
